@@ -93,10 +93,17 @@ def unj(case):
 # search: one input against the oracle
 # ---------------------------------------------------------------------------
 
+CASE_TIMEOUT = 10.0      # seconds for one call into the real code (a hang is a failure, not a stuck check)
+
+
 def _C():
     vlib.import_pymwp()
     from pymwp.choice import Choices
     return Choices
+
+
+def T(fn, *a):
+    return vlib.with_timeout(fn, CASE_TIMEOUT, *a)
 
 
 def check_object(c, dom, n, acc, what):
@@ -150,7 +157,7 @@ def check_case(case):
     acc = accepted_set(dom, n, S)
     if kind in ("generate", "intersection"):
         try:
-            c1 = Choices.generate(list(dom), n, set(S))
+            c1 = T(Choices.generate, list(dom), n, set(S))
         except Exception as e:
             return fail("generate:raises", "a Choices object", vlib.exc_sig(e))
         r = check_object(c1, dom, n, acc, "generate")
@@ -160,7 +167,7 @@ def check_case(case):
             return fail("generate:index-wrong", n, c1.index)
     if kind == "build":
         try:
-            valid = Choices.build_choices(list(dom), n, set(S))
+            valid = T(Choices.build_choices, list(dom), n, set(S))
             c1 = Choices(valid, n)
         except Exception as e:
             return fail("build:raises", "a list of vectors", vlib.exc_sig(e))
@@ -170,8 +177,8 @@ def check_case(case):
     if kind == "intersection":
         acc2 = accepted_set(dom, n, S2)
         try:
-            c2 = Choices.generate(list(dom), n, set(S2))
-            c = Choices.intersection(c1, c2)
+            c2 = T(Choices.generate, list(dom), n, set(S2))
+            c = T(Choices.intersection, c1, c2)
         except Exception as e:
             return fail("intersection:raises", "a Choices object", vlib.exc_sig(e))
         r = check_object(c, dom, n, acc & acc2, "intersection")
@@ -233,45 +240,49 @@ def shrink(case):
 # search: exhaustive workers (fork pool)
 # ---------------------------------------------------------------------------
 
+def _obj_ok(c, vs, acc, n):
+    return (all(c.is_valid(*v) == (v in acc) for v in vs) and set(c.all()) == acc
+            and bool(c.infinite) == (not acc) and c.index == n
+            and ((c.first is None) if not acc else (c.first is not None and tuple(c.first) in acc)))
+
+
 def _exh_worker(job):
-    """job = (k, n, lo, hi, step): all subsets (bit masks lo..hi) of the well-formed sequences of range(k)^n."""
-    k, n, lo, hi, maxcard = job
+    """job = (k, n, masks): sets of well-formed sequences of range(k)^n given as bit masks (a range or a list).
+    generate on every set, build_choices (unsimplified) on every third. Stops early once failures are found."""
+    k, n, masks = job
     Choices = _C()
     dom = list(range(k))
     seqs = wf_sequences(dom, n)
     vs = list(itertools.product(dom, repeat=n))
     mt = [[matches(s, v) for v in vs] for s in seqs]
     fails, cnt, ninf, nbuild = [], 0, 0, 0
-    for mask in range(lo, hi):
-        if maxcard is not None and bin(mask).count("1") > maxcard:
-            continue
+    for mask in masks:
         idx = [j for j in range(len(seqs)) if mask >> j & 1]
         S = [seqs[j] for j in idx]
         acc = {v for q, v in enumerate(vs) if not any(mt[j][q] for j in idx)}
         cnt += 1
         ninf += (not acc)
-        bad = None
-        try:
-            c = Choices.generate(list(dom), n, set(S))
-            ok = (all(c.is_valid(*v) == (v in acc) for v in vs) and set(c.all()) == acc
-                  and bool(c.infinite) == (not acc) and c.index == n
-                  and ((c.first is None) if not acc else (c.first is not None and tuple(c.first) in acc)))
-        except Exception:
-            ok = False
-        if not ok:
-            bad = "generate"
-        elif mask % 3 == 0:     # build_choices directly on the unsimplified set
-            nbuild += 1
+        bad, hung = None, False
+        for kind in ("generate", "build"):
+            if kind == "build":
+                if mask % 3:
+                    continue
+                nbuild += 1
             try:
-                c = Choices(Choices.build_choices(list(dom), n, set(S)), n)
-                ok = (all(c.is_valid(*v) == (v in acc) for v in vs) and set(c.all()) == acc
-                      and bool(c.infinite) == (not acc))
+                c = (T(Choices.generate, list(dom), n, set(S)) if kind == "generate"
+                     else Choices(T(Choices.build_choices, list(dom), n, set(S)), n))
+                ok = _obj_ok(c, vs, acc, n)
+            except vlib.CaseTimeout:
+                ok, hung = False, True
             except Exception:
                 ok = False
             if not ok:
-                bad = "build"
-        if bad and len(fails) < 3:
+                bad = kind
+                break
+        if bad:
             fails.append(jcase(bad, dom, n, S))
+            if hung or len(fails) >= 3:
+                break
     return fails, cnt, ninf, nbuild
 
 
@@ -286,23 +297,28 @@ def _exh_inter_worker(job):
     def g(m):
         if m not in gen:
             S = [seqs[j] for j in range(len(seqs)) if m >> j & 1]
-            gen[m] = (S, accepted_set(dom, n, S), Choices.generate(list(dom), n, set(S)))
+            gen[m] = (S, accepted_set(dom, n, S), T(Choices.generate, list(dom), n, set(S)))
         return gen[m]
     vs = list(itertools.product(dom, repeat=n))
     for (m1, m2) in masks:
-        S1, a1, c1 = g(m1)
-        S2, a2, c2 = g(m2)
         cnt += 1
+        try:
+            S1, a1, c1 = g(m1)
+            S2, a2, c2 = g(m2)
+        except Exception:       # generate itself fails or hangs: reported by the generate search; stop this job
+            S1 = [seqs[j] for j in range(len(seqs)) if m1 >> j & 1]
+            S2 = [seqs[j] for j in range(len(seqs)) if m2 >> j & 1]
+            fails.append(jcase("intersection", dom, n, S1, S2))
+            break
         acc = a1 & a2
         try:
-            c = Choices.intersection(c1, c2)
-            ok = (all(c.is_valid(*v) == (v in acc) for v in vs) and set(c.all()) == acc
-                  and bool(c.infinite) == (not acc)
-                  and ((c.first is None) if not acc else (c.first is not None and tuple(c.first) in acc)))
+            ok = _obj_ok(Choices.intersection(c1, c2), vs, acc, n)
         except Exception:
             ok = False
-        if not ok and len(fails) < 3:
+        if not ok:
             fails.append(jcase("intersection", dom, n, S1, S2))
+            if len(fails) >= 3:
+                break
     return fails, cnt
 
 
@@ -367,7 +383,7 @@ def rand_dom(rng, k=None):
 
 
 def prod_len_after_simplify(Choices, dom, S):
-    simp = Choices.simplify(list(dom), set(S))
+    simp = T(Choices.simplify, list(dom), set(S))
     p = 1
     for s in simp:
         p *= len(s)
@@ -441,9 +457,9 @@ def observe_generate(Choices, dom, n, S_order, build_only=False):
     """(raised?, isv, inf, first_none) of the real code; S_order = list (the set is rebuilt from it)."""
     try:
         if build_only:
-            c = Choices(Choices.build_choices(list(dom), n, set(S_order)), n)
+            c = Choices(T(Choices.build_choices, list(dom), n, set(S_order)), n)
         else:
-            c = Choices.generate(list(dom), n, set(S_order))
+            c = T(Choices.generate, list(dom), n, set(S_order))
         isv = [bool(c.is_valid(*v)) for v in itertools.product(dom, repeat=n)]
         inf = bool(c.infinite)
     except Exception as e:
@@ -534,10 +550,8 @@ def search(ctx):
             total = 1 << m
             step = max(1, total // 64)
             for lo in range(0, total, step):
-                jobs.append((k, n, lo, min(total, lo + step), None))
-        else:
-            # subsets of bounded cardinality, enumerated as masks through combinations in the worker's range:
-            # the full mask range is too large, so enumerate combinations here and pack them in chunks
+                jobs.append((k, n, range(lo, min(total, lo + step))))
+        else:               # subsets of bounded cardinality
             combos = []
             for r in range(0, card + 1):
                 for cmb in itertools.combinations(range(m), r):
@@ -546,8 +560,8 @@ def search(ctx):
                         mask |= 1 << j
                     combos.append(mask)
             for i in range(0, len(combos), 2000):
-                jobs.append((k, n, ("masks", combos[i:i + 2000]), None, None))
-    res = vlib.pool_map(_exh_dispatch, jobs, chunksize=1)
+                jobs.append((k, n, combos[i:i + 2000]))
+    res = vlib.pool_map(_exh_worker, jobs, chunksize=1)
     for (job, (fails, cnt, ninf, nbuild)) in zip(jobs, res):
         key = f"dom{job[0]}_n{job[1]}"
         e = st["exhaustive"].setdefault(key, {"sets": 0, "infinite": 0, "build_direct": 0})
@@ -629,7 +643,7 @@ def search(ctx):
     for (dom, n, S) in [([0, 1], 2, [(), ((0, 0), (1, 1))]), ([0, 1], 2, [(), ((0, 0),)]), ([0, 1], 0, [()]), ([0, 1], 2, [()]),
                         ([0, 1], 1, [((0, 1),)]), ([0, 0, 1], 2, [((0, 0),), ((1, 0),)]), ([], 2, [])]:
         try:
-            c = Choices.generate(list(dom), n, set(S))
+            c = T(Choices.generate, list(dom), n, set(S))
             acc = accepted_set(dom, n, S)
             try:
                 f = c.first
@@ -645,7 +659,7 @@ def search(ctx):
     # -- n = 0 intersection (inside the literal quantifier, refuted in Coq): policy below
     n0 = None
     try:
-        a = Choices.generate([0, 1, 2], 0, set())
+        a = T(Choices.generate, [0, 1, 2], 0, set())
         c = Choices.intersection(a, a)
         if a.is_valid() and not c.is_valid():
             try:
@@ -677,6 +691,7 @@ def search(ctx):
 def _rand_worker(chunk):
     Choices = _C()
     out = []
+    nfail = 0
     for (kind, dom, n, S, S2) in chunk:
         try:
             p = prod_len_after_simplify(Choices, dom, S)
@@ -695,54 +710,14 @@ def _rand_worker(chunk):
         r = check_case(case)
         acc = accepted_set(dom, n, S)
         try:
-            changed = int(set(Choices.simplify(list(dom), set(S))) != set(S))
+            changed = int(set(T(Choices.simplify, list(dom), set(S))) != set(S))
         except Exception:
             changed = 0
         out.append((case, False, len(acc), len(dom) ** n, changed, bool(r)))
+        nfail += bool(r)
+        if nfail >= 2:
+            break
     return out
-
-
-def _exh_dispatch(job):
-    k, n, lo, hi, card = job
-    if isinstance(lo, tuple):       # explicit list of masks
-        masks = lo[1]
-        return _exh_masks(k, n, masks)
-    return _exh_worker(job)
-
-
-def _exh_masks(k, n, masks):
-    Choices = _C()
-    dom = list(range(k))
-    seqs = wf_sequences(dom, n)
-    vs = list(itertools.product(dom, repeat=n))
-    mt = [[matches(s, v) for v in vs] for s in seqs]
-    fails, cnt, ninf, nbuild = [], 0, 0, 0
-    for mask in masks:
-        idx = [j for j in range(len(seqs)) if mask >> j & 1]
-        S = [seqs[j] for j in idx]
-        acc = {v for q, v in enumerate(vs) if not any(mt[j][q] for j in idx)}
-        cnt += 1
-        ninf += (not acc)
-        bad = None
-        for kind in ("generate", "build"):
-            if kind == "build":
-                if mask % 3:
-                    continue
-                nbuild += 1
-            try:
-                c = (Choices.generate(list(dom), n, set(S)) if kind == "generate"
-                     else Choices(Choices.build_choices(list(dom), n, set(S)), n))
-                ok = (all(c.is_valid(*v) == (v in acc) for v in vs) and set(c.all()) == acc
-                      and bool(c.infinite) == (not acc) and c.index == n
-                      and ((c.first is None) if not acc else (c.first is not None and tuple(c.first) in acc)))
-            except Exception:
-                ok = False
-            if not ok:
-                bad = kind
-                break
-        if bad and len(fails) < 3:
-            fails.append(jcase(bad, dom, n, S))
-    return fails, cnt, ninf, nbuild
 
 
 def correspondence(ctx):
@@ -862,7 +837,11 @@ def correspondence(ctx):
     for (dom, n, S) in inputs:
         if n == 0:
             continue
-        steps, final = trace_simplify(Choices, dom, S)
+        try:
+            steps, final = T(trace_simplify, Choices, dom, S)
+        except vlib.CaseTimeout:
+            mism.append(f"pass stream: real simplification passes do not terminate on {jcase('simplify', dom, n, S)}")
+            continue
         for (name, before, ret, after) in steps:
             key = (name, tuple(dom), tuple(before))
             if key in seen:
@@ -880,7 +859,7 @@ def correspondence(ctx):
             pass_c.append(f"({pid[name]}, {q_nats(dom)}, {q_seqs(before)}, {exp})")
             pass_d.append(json.dumps({"pass": name, "dom": dom, "before_in_iteration_order": before, "returned": ret, "after": after}))
         if final is not None and len(dom) ** n <= 1100:
-            real = list(Choices.simplify(list(dom), set(S)))
+            real = list(T(Choices.simplify, list(dom), set(S)))
             simp_c.append(f"({q_nats(dom)}, {n}, {q_seqs(list(set(S)))}, {q_seqs(real)})")
             simp_d.append(json.dumps(jcase("simplify", dom, n, S)))
     typ_p = "nat * list nat * list dseq * option (bool * list dseq)"
@@ -913,7 +892,7 @@ def correspondence(ctx):
             c = Choices.intersection(a, b)
             int_c.append(f"({q_boxes(a.valid)}, ({a.index})%Z, {q_boxes(b.valid)}, ({b.index})%Z, Some ({q_boxes(c.valid)}, ({c.index})%Z))")
             int_d.append(json.dumps({"a": a.valid, "b": b.valid, "index": n}))
-    a0 = Choices.generate([0, 1], 0, set())
+    a0 = T(Choices.generate, [0, 1], 0, set())
     c0 = Choices.intersection(a0, a0)
     int_c.append(f"({q_boxes(a0.valid)}, 0%Z, {q_boxes(a0.valid)}, 0%Z, Some ({q_boxes(c0.valid)}, ({c0.index})%Z))")
     int_d.append("n=0")
